@@ -12,6 +12,13 @@
    - every function returns the new table, the list of effects (which session did what on
      behalf of a packet naming which device) and the answer (error, re-registration request,
      or the outbound leaf packets written to the connection).
+   Every function that looks a table up by the 32-bit hash takes a flag chk:
+   - chk = true is the code as it is now (after the fix: commits): the entry found under the hash
+     is used only if its full ID is the ID asked for; an entry of another device is left alone and
+     the sender is treated as unregistered (and cannot register: the slot is taken);
+   - chk = false is the code as it was (hash only), kept so that the regression stays stated.
+   talk, talk_sub, server_session, proxy_* without suffix are the chk = true instances; these are
+   what the correspondence run evaluates and what the theorems are about.
    Not modelled: fragments, oneshot packets, Multi inside Multi, SvShutdown traffic, channels,
    the proxy flag, packet payloads beyond the five body shapes below, batching limits of
    nextPacket (queues hold fewer than limits.Packets small packets: next() empties the queue). *)
@@ -88,6 +95,14 @@ Definition set_out (s : session) (q : list out) : session := Session (s_id s) q 
 Definition set_host (s : session) (a : Z) : session := Session (s_id s) (s_out s) a (s_key s).
 Definition set_key (s : session) (k : Z) : session := Session (s_id s) (s_out s) (s_host s) k.
 
+(* the hash lookup and (repaired code) the comparison of the full ID that follows it *)
+Inductive slot := Free | Own (s : session) | Other (s : session).
+Definition lookup (chk : bool) (t : table) (d : id) : slot :=
+  match t !! hash d with
+  | None => Free
+  | Some s => if chk && negb (id_eqb (s_id s) d) then Other s else Own s
+  end.
+
 (* effects: what happened in which session, on behalf of a packet naming which device *)
 Inductive eff :=
 | ENew (sid : id)                      (* Server.New fires for a freshly registered session *)
@@ -120,23 +135,30 @@ Definition rekey (s : session) (n : leaf) : session * list eff :=
   | None => (s, [])
   end.
 
-(* receive(s, l, n) for a leaf packet (no Multi/Frag flags): effects, error *)
-Definition recv_leaf (s : session) (n : leaf) : list eff * option Z :=
-  if id_empty (l_dev n) || is_nop n then ([], None)
-  else if negb (id_eqb (s_id s) (l_dev n)) then ([], Some EMismatch)
-  else if (l_pid n =? SvComplete) && negb (match body_key (l_body n) with Some _ => true | None => false end) then ([], None)
-  else if l_pid n <? MvRefresh then ([], None)
-  else ([EHandle (s_id s) (l_dev n) (l_job n)], None).
+(* receive(s, l, n) for a leaf packet (no Multi/Frag flags): the session afterwards, effects, error.
+   SvComplete with FlagCrypt and a payload: receiveSingle calls keySessionSync, which reads the
+   payload into keys.Public as long as the pair is not synced (in the harness the key material is
+   never a valid curve point, so Sync fails and the pair never counts as synced). *)
+Definition recv_leaf (s : session) (n : leaf) : session * list eff * option Z :=
+  if id_empty (l_dev n) || is_nop n then (s, [], None)
+  else if negb (id_eqb (s_id s) (l_dev n)) then (s, [], Some EMismatch)
+  else if l_pid n =? SvComplete then
+    match body_key (l_body n) with
+    | Some k => (set_key s k, [ERekey (s_id s) (l_dev n) k], None)
+    | None => (s, [], None)
+    end
+  else if l_pid n <? MvRefresh then (s, [], None)
+  else (s, [EHandle (s_id s) (l_dev n) (l_job n)], None).
 
 (* receive of a FlagMulti packet: each sub-packet through receive again; the first error aborts *)
-Fixpoint recv_batch (s : session) (subs : list leaf) : list eff * option Z :=
+Fixpoint recv_batch (s : session) (subs : list leaf) : session * list eff * option Z :=
   match subs with
-  | [] => ([], None)
+  | [] => (s, [], None)
   | v :: r =>
-    if id_empty (l_dev v) then ([], Some EOther)       (* UnmarshalStream: ID.Read refuses an empty ID *)
+    if id_empty (l_dev v) then (s, [], Some EOther)       (* UnmarshalStream: ID.Read refuses an empty ID *)
     else match recv_leaf s v with
-         | (e, Some err) => (e, Some err)
-         | (e, None) => let '(e', r') := recv_batch s r in (e ++ e', r')
+         | (s1, e, Some err) => (s1, e, Some err)
+         | (s1, e, None) => let '(s2, e', r') := recv_batch s1 r in (s2, e ++ e', r')
          end
   end.
 
@@ -145,11 +167,12 @@ Definition new_session (a : Z) (n_dev : id) (n_job : Z) : session :=
   Session n_dev [(n_dev, SvComplete, n_job)] a 0.
 
 (* ---- Listener.talkSub --------------------------------------------------- *)
-Definition talk_sub (a : Z) (t : table) (n : leaf) (o : bool) : table * list eff * ans :=
+Definition talk_sub_g (chk : bool) (a : Z) (t : table) (n : leaf) (o : bool) : table * list eff * ans :=
   if id_empty (l_dev n) then (t, [], AErr EClosed) else
   let i := hash (l_dev n) in
-  match t !! i with
-  | None =>
+  match lookup chk t (l_dev n) with
+  | Other _ => (t, [], ASub None 0 (Some (l_dev n)) [])
+  | Free =>
     if negb (l_pid n =? SvHello) then (t, [], ASub None 0 (Some (l_dev n)) [])
     else match l_body n with
          | BHello =>
@@ -160,15 +183,15 @@ Definition talk_sub (a : Z) (t : table) (n : leaf) (o : bool) : table * list eff
            else let '(s', l) := next_true s in (<[i := s']> t, e, ASub (Some (s_id s)) i None l)
          | _ => (t, [], AErr EOther)
          end
-  | Some s =>
+  | Own s =>
     let s1 := set_host s a in
     let '(s2, ek) := rekey s1 n in
     let e0 := ETouch (s_id s) (l_dev n) :: ek in
     match recv_leaf s2 n with
-    | (e, Some err) => (<[i := s2]> t, e0 ++ e, AErr err)
-    | (e, None) =>
-      if o then (<[i := s2]> t, e0 ++ e, ASub (Some (s_id s)) i None [])
-      else let '(s3, l) := next_true s2 in (<[i := s3]> t, e0 ++ e, ASub (Some (s_id s)) i None l)
+    | (s2', e, Some err) => (<[i := s2']> t, e0 ++ e, AErr err)
+    | (s2', e, None) =>
+      if o then (<[i := s2']> t, e0 ++ e, ASub (Some (s_id s)) i None [])
+      else let '(s3, l) := next_true s2' in (<[i := s3]> t, e0 ++ e, ASub (Some (s_id s)) i None l)
     end
   end.
 
@@ -193,7 +216,7 @@ Fixpoint resolve_tags (a : Z) (host : id) (t : table) (tags seen : list Z) (add 
 (* ---- conn.processMultiple (o = false) ----------------------------------- *)
 (* hk is the key the host session is stored under; the host session is re-read from the table
    at each step (Go holds a pointer to it). *)
-Fixpoint process_multiple (a : Z) (hk : Z) (t : table) (subs : list leaf) (acc : list out) (e : list eff)
+Fixpoint process_multiple (chk : bool) (a : Z) (hk : Z) (t : table) (subs : list leaf) (acc : list out) (e : list eff)
   : table * list out * list eff * option Z :=
   match subs with
   | [] => (t, acc, e, None)
@@ -204,36 +227,77 @@ Fixpoint process_multiple (a : Z) (hk : Z) (t : table) (subs : list leaf) (acc :
     | Some h =>
       if id_eqb (s_id h) (l_dev v) then
         let '(h1, ek) := rekey h v in
-        let '(er, _) := recv_leaf h1 v in    (* the error is only logged *)
-        let '(h2, l) := next_false h1 in
-        process_multiple a hk (<[hk := h2]> t) r (acc ++ l) (e ++ ek ++ er)
+        let '(h1', er, _) := recv_leaf h1 v in    (* the error is only logged *)
+        let '(h2, l) := next_false h1' in
+        process_multiple chk a hk (<[hk := h2]> t) r (acc ++ l) (e ++ ek ++ er)
       else
-        match talk_sub a t v false with
+        match talk_sub_g chk a t v false with
         | (t', e', AErr err) => (t', acc, e ++ e', Some err)
-        | (t', e', ASub _ _ (Some d) _) => process_multiple a hk t' r (acc ++ [(d, SvRegister, 0)]) (e ++ e')
-        | (t', e', ASub _ _ None l) => process_multiple a hk t' r (acc ++ l) (e ++ e')
+        | (t', e', ASub _ _ (Some d) _) => process_multiple chk a hk t' r (acc ++ [(d, SvRegister, 0)]) (e ++ e')
+        | (t', e', ASub _ _ None l) => process_multiple chk a hk t' r (acc ++ l) (e ++ e')
         | (t', e', _) => (t', acc, e ++ e', Some EOther)   (* unreachable *)
         end
     end
   end.
 
 (* ---- Listener.talk ------------------------------------------------------- *)
-Definition talk (a : Z) (t : table) (p : pkt) : table * list eff * ans :=
+(* the lookup / registration part: Err 0 stands for the re-registration request *)
+Definition talk_enter (chk : bool) (a : Z) (t : table) (p : pkt) : res (table * list eff * bool) :=
+  let d := p_dev p in
+  let i := hash d in
+  match lookup chk t d with
+  | Own s => Ok (<[i := set_host s a]> t, [ETouch (s_id s) d], true)
+  | Other _ => if p_empty p && (p_pid p =? SvHello) then Err EMalformed else Err 0
+  | Free =>
+    if p_empty p && (p_pid p =? SvHello) then Err EMalformed
+    else if negb (p_pid p =? SvHello) then Err 0
+    else match p with
+         | Single (Leaf _ _ j BHello) _ => Ok (<[i := new_session a d j]> t, [ETouch d d; ENew d], false)
+         | _ => Err EOther
+         end
+  end.
+
+(* conn.process on the host session stored under key i (re-read from the table: Go holds a pointer) *)
+Definition talk_process (chk : bool) (a i : Z) (t2 : table) (p : pkt) (add : list out) (known : bool)
+  : table * list eff * ans :=
+  match t2 !! i with
+  | None => (t2, [], AErr EOther)    (* unreachable *)
+  | Some h =>
+    match p with
+    | Single n _ =>
+      (* talk: keyCryptAndUpdate if known; notify: keyCryptAndUpdate; receive *)
+      let '(h1, ek) := rekey h n in
+      match recv_leaf h1 n with
+      | (h1', er, Some err) => (<[i := h1']> t2, ek ++ er, AErr err)
+      | (h1', er, None) =>
+        let '(h2, l) := next_false h1' in
+        (<[i := h2]> t2, ek ++ er, AReply known (l ++ add))
+      end
+    | Batch d _ subs _ =>
+      if negb (id_eqb (s_id h) d) then (t2, [], AErr EMismatch)
+      else if is_nil subs then (t2, [], AErr ECount)
+      else match recv_batch h subs with
+           | (h1, er, Some err) => (<[i := h1]> t2, er, AErr err)
+           | (h1, er, None) =>
+             let '(h2, l) := next_false h1 in
+             (<[i := h2]> t2, er, AReply known (l ++ add))
+           end
+    | MultiDev _ _ subs _ =>
+      if is_nil subs then (t2, [], AErr ECount)
+      else match process_multiple chk a i t2 subs [] [] with
+           | (t3, acc, e3, Some err) => (t3, e3, AErr err)
+           | (t3, acc, e3, None) =>
+             let l := acc ++ add in
+             (t3, e3, AReply known (if is_nil l then [(s_id h, 0, 0)] else l))
+           end
+    end
+  end.
+
+Definition talk_g (chk : bool) (a : Z) (t : table) (p : pkt) : table * list eff * ans :=
   let d := p_dev p in
   if id_empty d then (t, [], AErr EClosed) else
   let i := hash d in
-  let found := t !! i in
-  match (match found with
-         | Some s => Ok (<[i := set_host s a]> t, [ETouch (s_id s) d], true)
-         | None =>
-           if p_empty p && (p_pid p =? SvHello) then Err EMalformed
-           else if negb (p_pid p =? SvHello) then Err 0      (* re-registration request *)
-           else match p with
-                | Single (Leaf _ _ j BHello) _ =>
-                  Ok (<[i := new_session a d j]> t, [ETouch d d; ENew d], false)
-                | _ => Err EOther
-                end
-         end) with
+  match talk_enter chk a t p with
   | Panic => (t, [], AErr EOther)    (* unreachable *)
   | Err e => if e =? 0 then (t, [], ARegister d) else (t, [], AErr e)
   | Ok (t1, e1, known) =>
@@ -241,58 +305,19 @@ Definition talk (a : Z) (t : table) (p : pkt) : table * list eff * ans :=
     match t1 !! i with
     | None => (t1, e1, AErr EOther)  (* unreachable *)
     | Some h0 =>
-      let hid := s_id h0 in
-      match resolve_tags a hid t1 (p_tags p) [] [] [] with
+      match resolve_tags a (s_id h0) t1 (p_tags p) [] [] [] with
       | (t2, add, e2, Some err) => (t2, e1 ++ e2, AErr err)
       | (t2, add, e2, None) =>
-        match t2 !! i with
-        | None => (t2, e1 ++ e2, AErr EOther)    (* unreachable *)
-        | Some h =>
-          match p with
-          | Single n _ =>
-            (* talk: keyCryptAndUpdate if known; notify: keyCryptAndUpdate; receive *)
-            let '(h1, ek) := rekey h n in
-            let t3 := <[i := h1]> t2 in
-            match recv_leaf h1 n with
-            | (er, Some err) => (t3, e1 ++ e2 ++ ek ++ er, AErr err)
-            | (er, None) =>
-              let '(h2, l) := next_false h1 in
-              (<[i := h2]> t3, e1 ++ e2 ++ ek ++ er, AReply known (l ++ add))
-            end
-          | Batch _ _ subs _ =>
-            if negb (id_eqb (s_id h) d) then (t2, e1 ++ e2, AErr EMismatch)
-            else if is_nil subs then (t2, e1 ++ e2, AErr ECount)
-            else match recv_batch h subs with
-                 | (er, Some err) => (t2, e1 ++ e2 ++ er, AErr err)
-                 | (er, None) =>
-                   let '(h2, l) := next_false h in
-                   (<[i := h2]> t2, e1 ++ e2 ++ er, AReply known (l ++ add))
-                 end
-          | MultiDev _ _ subs _ =>
-            if is_nil subs then (t2, e1 ++ e2, AErr ECount)
-            else match process_multiple a i t2 subs [] [] with
-                 | (t3, acc, e3, Some err) => (t3, e1 ++ e2 ++ e3, AErr err)
-                 | (t3, acc, e3, None) =>
-                   let l := acc ++ add in
-                   (t3, e1 ++ e2 ++ e3, AReply known (if is_nil l then [(hid, 0, 0)] else l))
-                 end
-          end
-        end
+        let '(t3, e3, r) := talk_process chk a i t2 p add known in (t3, e1 ++ e2 ++ e3, r)
       end
     end
   end.
 
 (* ---- Server.Session / Sessions / Remove, and a send through the lookup ---- *)
-(* the repaired Server.Session: the entry under the hash is returned only if its ID is the one asked for *)
-Definition server_session (t : table) (d : id) : option session :=
+(* Server.Session: (repaired) the entry under the hash is returned only if its ID is the one asked for *)
+Definition server_session_g (chk : bool) (t : table) (d : id) : option session :=
   if id_empty d then None
-  else match t !! hash d with
-       | Some s => if id_eqb (s_id s) d then Some s else None
-       | None => None
-       end.
-(* Server.Session as it was before the repair (hash only); kept for the refutation *)
-Definition server_session_hash_only (t : table) (d : id) : option session :=
-  if id_empty d then None else t !! hash d.
+  else match lookup chk t d with Own s => Some s | _ => None end.
 
 Definition server_sessions (t : table) : list (Z * id) := map (fun kv => (fst kv, s_id (snd kv))) (map_to_list t).
 
@@ -304,8 +329,8 @@ Definition server_remove (t : table) (d : id) : table * list eff :=
   end.
 
 (* the operator looks the session of d up and writes a packet naming d to it *)
-Definition server_send (t : table) (d : id) (pid job : Z) : table * option id :=
-  match server_session t d with
+Definition server_send_g (chk : bool) (t : table) (d : id) (pid job : Z) : table * option id :=
+  match server_session_g chk t d with
   | Some s => (<[hash d := set_out s (s_out s ++ [(d, pid, job)])]> t, Some (s_id s))
   | None => (t, None)
   end.
@@ -320,15 +345,31 @@ Inductive op :=
 | OSessions.
 
 (* the k-th operation of a history uses k+1 as its address tag *)
-Definition step (a : Z) (t : table) (o : op) : table * list eff * ans :=
+Definition step_g (chk : bool) (a : Z) (t : table) (o : op) : table * list eff * ans :=
   match o with
-  | OTalk p => talk a t p
-  | OTalkSub n b => talk_sub a t n b
-  | OSend d pid job => let '(t', r) := server_send t d pid job in (t', [], AFound r)
-  | OLookup d => (t, [], AFound (option_map s_id (server_session t d)))
+  | OTalk p => talk_g chk a t p
+  | OTalkSub n b => talk_sub_g chk a t n b
+  | OSend d pid job => let '(t', r) := server_send_g chk t d pid job in (t', [], AFound r)
+  | OLookup d => (t, [], AFound (option_map s_id (server_session_g chk t d)))
   | ORemove d => let '(t', e) := server_remove t d in (t', e, ABool true)
   | OSessions => (t, [], AList (server_sessions t))
   end.
+
+(* the code as it is *)
+Definition talk := talk_g true.
+Definition talk_sub := talk_sub_g true.
+Definition server_session := server_session_g true.
+Definition server_send := server_send_g true.
+Definition step := step_g true.
+
+(* a whole history from address tag a: the final table and what each step did and answered *)
+Fixpoint run_g (chk : bool) (a : Z) (t : table) (ops : list op) : table * list (list eff * ans) :=
+  match ops with
+  | [] => (t, [])
+  | o :: r => let '(t', e, x) := step_g chk a t o in
+              let '(t'', l) := run_g chk (a + 1) t' r in (t'', (e, x) :: l)
+  end.
+Definition run := run_g true.
 
 (* ---- the proxy: clients keyed by hash, packets forwarded upstream ----------- *)
 Record pclient := PClient { c_id : id; c_out : list out }.
@@ -339,21 +380,20 @@ Definition pnext_false (c : pclient) : pclient * list out :=
 Definition pnext_true (c : pclient) : pclient * list out :=
   match c_out c with [] => (c, []) | q => (PClient (c_id c) [], q) end.
 
-(* Proxy.accept, repaired: a packet is queued for a client only if the client's ID is the packet's device *)
-Definition proxy_accept (x : proxy) (n : leaf) : proxy * bool :=
-  match x_clients x !! hash (l_dev n) with
-  | None => (x, false)
-  | Some c =>
-    if negb (id_eqb (c_id c) (l_dev n)) then (x, false)
-    else if is_nop n then (x, true)
-    else (Proxy (<[hash (l_dev n) := PClient (c_id c) (c_out c ++ [(l_dev n, l_pid n, l_job n)])]> (x_clients x)) (x_up x), true)
+Inductive pslot := PFree | POwn (c : pclient) | POther (c : pclient).
+Definition plookup (chk : bool) (cl : gmap Z pclient) (d : id) : pslot :=
+  match cl !! hash d with
+  | None => PFree
+  | Some c => if chk && negb (id_eqb (c_id c) d) then POther c else POwn c
   end.
-Definition proxy_accept_hash_only (x : proxy) (n : leaf) : proxy * bool :=
-  match x_clients x !! hash (l_dev n) with
-  | None => (x, false)
-  | Some c =>
+
+(* Proxy.accept: (repaired) a packet is queued for a client only if the client's ID is the packet's device *)
+Definition proxy_accept_g (chk : bool) (x : proxy) (n : leaf) : proxy * bool :=
+  match plookup chk (x_clients x) (l_dev n) with
+  | POwn c =>
     if is_nop n then (x, true)
     else (Proxy (<[hash (l_dev n) := PClient (c_id c) (c_out c ++ [(l_dev n, l_pid n, l_job n)])]> (x_clients x)) (x_up x), true)
+  | _ => (x, false)
   end.
 
 Fixpoint presolve_tags (host : id) (cl : gmap Z pclient) (tags seen : list Z) (add : list out)
@@ -371,14 +411,15 @@ Fixpoint presolve_tags (host : id) (cl : gmap Z pclient) (tags seen : list Z) (a
          end
   end.
 
-(* Proxy.talk for a single packet (the proxy parses nothing: every hello registers) *)
-Definition proxy_talk (x : proxy) (n : leaf) (tags : list Z) : proxy * ans :=
+(* Proxy.talk for a single packet (the proxy parses nothing: every hello of a free slot registers) *)
+Definition proxy_talk_g (chk : bool) (x : proxy) (n : leaf) (tags : list Z) : proxy * ans :=
   let d := l_dev n in
   if id_empty d then (x, AErr EClosed) else
   let i := hash d in
-  match (match x_clients x !! i with
-         | Some c => Some (x, true)
-         | None =>
+  match (match plookup chk (x_clients x) d with
+         | POwn c => Some (x, true)
+         | POther _ => None
+         | PFree =>
            if negb (l_pid n =? SvHello) then None
            else Some (Proxy (<[i := PClient d [(d, SvComplete, l_job n)]]> (x_clients x))
                             (x_up x ++ [(d, l_pid n, l_job n)]), false)
@@ -404,13 +445,14 @@ Definition proxy_talk (x : proxy) (n : leaf) (tags : list Z) : proxy * ans :=
   end.
 
 (* Proxy.talkSub *)
-Definition proxy_talk_sub (x : proxy) (n : leaf) (o : bool) : proxy * ans :=
+Definition proxy_talk_sub_g (chk : bool) (x : proxy) (n : leaf) (o : bool) : proxy * ans :=
   let d := l_dev n in
   if id_empty d then (x, AErr EClosed) else
   let i := hash d in
-  match (match x_clients x !! i with
-         | Some c => Some x
-         | None =>
+  match (match plookup chk (x_clients x) d with
+         | POwn c => Some x
+         | POther _ => None
+         | PFree =>
            if negb (l_pid n =? SvHello) then None
            else Some (Proxy (<[i := PClient d [(d, SvComplete, l_job n)]]> (x_clients x)) (x_up x))
          end) with
@@ -431,12 +473,17 @@ Inductive pop :=
 | PTalkSub (n : leaf) (o : bool)
 | PAccept (n : leaf).
 
-Definition pstep (x : proxy) (o : pop) : proxy * ans :=
+Definition pstep_g (chk : bool) (x : proxy) (o : pop) : proxy * ans :=
   match o with
-  | PTalk n tags => proxy_talk x n tags
-  | PTalkSub n b => proxy_talk_sub x n b
-  | PAccept n => let '(x', b) := proxy_accept x n in (x', ABool b)
+  | PTalk n tags => proxy_talk_g chk x n tags
+  | PTalkSub n b => proxy_talk_sub_g chk x n b
+  | PAccept n => let '(x', b) := proxy_accept_g chk x n in (x', ABool b)
   end.
+
+Definition proxy_accept := proxy_accept_g true.
+Definition proxy_talk := proxy_talk_g true.
+Definition proxy_talk_sub := proxy_talk_sub_g true.
+Definition pstep := pstep_g true.
 
 (* ---- correspondence cases --------------------------------------------------- *)
 (* observable events of one step, in the order the server's event loop delivered them *)
@@ -501,34 +548,38 @@ Definition sort_by {A} (key : A -> Z) (l : list A) : list A := fold_right (inser
 Definition sort_ans (a : ans) : ans :=
   match a with AList l => AList (sort_by fst l) | _ => a end.
 
-Fixpoint run_check (a : Z) (t : table) (ops : list op) (o : list obs) : bool :=
+Fixpoint run_check (chk : bool) (a : Z) (t : table) (ops : list op) (o : list obs) : bool :=
   match ops, o with
   | [], [] => true
   | x :: ops', y :: o' =>
-    let '(t', e, r) := step a t x in
+    let '(t', e, r) := step_g chk a t x in
     ans_eqb (sort_ans r) (o_ans y)
     && list_eqb ev_eqb (flat_map ev_of e) (o_evs y)
     && list_eqb snap_eqb (sort_by (fun s : snap => let '(k, _, _, _, _) := s in k) (snapshot t')) (o_tbl y)
-    && run_check (a + 1) t' ops' o'
+    && run_check chk (a + 1) t' ops' o'
   | _, _ => false
   end.
 
-Fixpoint prun_check (x : proxy) (ops : list pop) (o : list pobs) : bool :=
+Fixpoint prun_check (chk : bool) (x : proxy) (ops : list pop) (o : list pobs) : bool :=
   match ops, o with
   | [], [] => true
   | p :: ops', y :: o' =>
-    let '(x', r) := pstep x p in
+    let '(x', r) := pstep_g chk x p in
     ans_eqb r (po_ans y)
     && outs_eqb (x_up x') (po_up y)
     && list_eqb psnap_eqb (sort_by (fun s : Z * id * list out => let '(k, _, _) := s in k) (psnapshot x')) (po_tbl y)
-    && prun_check x' ops' o'
+    && prun_check chk x' ops' o'
   | _, _ => false
   end.
 
-Definition check (c : case) : bool :=
+Definition check_g (chk : bool) (c : case) : bool :=
   match c with
   | CHash d h => hash d =? h
   | CConsts a b c d => (a =? SvHello) && (b =? SvRegister) && (c =? SvComplete) && (d =? MvRefresh)
-  | CHist ops o => run_check 1 ∅ ops o
-  | CProxy ops o => prun_check (Proxy ∅ []) ops o
+  | CHist ops o => run_check chk 1 ∅ ops o
+  | CProxy ops o => prun_check chk (Proxy ∅ []) ops o
   end.
+(* the code as it is *)
+Definition check := check_g true.
+(* the code as it was before the fix: commits (used once to validate the chk = false instances) *)
+Definition check_hash_only := check_g false.
